@@ -475,7 +475,17 @@ impl Installer for HInstaller {
                 (p, r, dt)
             };
             if let Some(o) = observer {
-                for k in progress { o.receive_progress(None, k as f32 / 16.0, None, None).await; }
+                // progress is reported one value at a time and, in between, by several reports in flight
+                // at once (groups of 1, 2, 3, 1, ... values joined concurrently): every value must reach the
+                // observer, in this order
+                let mut i = 0; let mut size = 1;
+                while i < progress.len() {
+                    let group: Vec<u32> = progress[i..(i + size).min(progress.len())].to_vec();
+                    i += group.len();
+                    if group.len() == 1 { o.receive_progress(None, group[0] as f32 / 16.0, None, None).await; }
+                    else { futures::future::join_all(group.iter().map(|k| o.receive_progress(None, *k as f32 / 16.0, None, None))).await; }
+                    size = size % 3 + 1;
+                }
             }
             hub.lock().unwrap().tick(dt);
             ((), results.into_iter().map(|r| match r { AppRes::Installed => AppInstallResult::Installed, AppRes::Deferred => AppInstallResult::Deferred, AppRes::Failed(m) => AppInstallResult::Failed(HErr(m)) }).collect())
